@@ -117,7 +117,7 @@ CHECK_DEADLOCK FALSE
         trigger=lambda tr: tr['cls'] != 'smtp' or any(b > 127 or b == 34 for r in tr['sent']['rcpts'] for b in r),
         assumptions=['address quoting and header serialisation are codec fidelity: identity oracle, sampled (DESIGN.md section 8)',
                      'quoted-pairs inside quoted local parts and non-ASCII addresses without SMTPUTF8 are outside the domain',
-                     'the HTTP relay -> WSGI edge hop and the LMTP client are not driven yet'],
+                     'the LMTP client is driven with one recipient per message (the SMTP edge answers the end of the content once)'],
         trusted=['TLC 1.8', 'CommunityModules Json/IOUtils', 'harness/drivers/c06.py'],
         wd=wd, extra_cov=extra_cov, post=hop_validation(wd, extra_cov))
 
